@@ -57,7 +57,9 @@ def run_world(world, idx=0, timeout=180, hashseed='0', extra_env=None, keep=Fals
     json.dump(world, open(wpath, 'w'))
     trace = os.path.join(d, 'trace.jsonl')
     open(trace, 'w').close()
-    args = ['--path', d, '--tests-pattern', '^%s%s$' % (mod, r'(_b\d+|_dd?)?' if (world.get('broken') or world.get('doctests')) else '')] + list(world.get('options', []))
+    # some worlds name the search path relative to the directory the run is started in and leave the children's working
+    # directory to the entry point (run_internal remembers where it was started)
+    args = ['--path', '.' if world.get('relpath') else d, '--tests-pattern', '^%s%s$' % (mod, r'(_b\d+|_dd?)?' if (world.get('broken') or world.get('doctests')) else '')] + list(world.get('options', []))
     if world.get('select_none'):
         # filters that leave nothing to run (-t / --layer matching nothing): the model is handed the world without tests
         args += {'-t': ['-t', 'zz_no_such_test'], '--layer': ['--layer', 'zz_no_such_layer']}[world['select_none']]
@@ -70,6 +72,8 @@ def run_world(world, idx=0, timeout=180, hashseed='0', extra_env=None, keep=Fals
         spec['stdout_encoding'] = world['stdout_encoding']
     if world.get('mkdirs'):
         spec['mkdirs'] = world['mkdirs']
+    if world.get('relpath'):
+        spec['default_cwd'] = True
     if world.get('odd'):
         spec['odd'] = world['odd']
     if world.get('via'):
